@@ -53,6 +53,9 @@ def enumerate_cases(tier, scope):
                     tree2['ports']['ext'] = pm.ns({}, **sub)
                     yield {'spec': tree2, 'emissions': [['a', 1], ['ext', value]], 'ret': 0}
                 yield {'spec': tree, 'emissions': [['a', 1], ['sub.q', 2]], 'ret': 5}
+                for late in ({'on_finish': 1}, {'on_exit_running': 1}, {'on_finish': 1, 'on_exit_running': 1}):
+                    yield {'spec': tree, 'emissions': [['sub.q', 2], ['a', 1]], 'ret': 5, 'late': late}
+                    yield {'spec': tree, 'emissions': [['a', 's'], ['sub.q', 2]], 'ret': 5, 'late': late}
                 yield {'spec': tree, 'emissions': [], 'ret': 5}
     # a port-less namespace declared a second time with other options: the last declaration counts
     for first in shapes:
@@ -167,6 +170,11 @@ def _cases(draw, tier):
         case['redeclare'] = [[path, dict(required=draw(st.booleans()), dynamic=draw(st.booleans()), valid_type=draw(st.sampled_from([None, 'int', 'str'])), validator=None, populate_defaults=True)]]
     if draw(st.integers(0, 3)) == 0:
         case['sep'] = draw(st.sampled_from(SEPARATORS))
+    if emissions and draw(st.integers(0, 3)) == 0:
+        n_fin = draw(st.integers(0, min(2, len(emissions))))
+        n_exit = draw(st.integers(0, min(2, len(emissions) - n_fin)))
+        if n_fin or n_exit:
+            case['late'] = {'on_finish': n_fin, 'on_exit_running': n_exit}
     return case
 
 
@@ -183,11 +191,22 @@ def execute(case):
     declared_tree = case['spec']
     tree = pm.redeclared(declared_tree, case.get('redeclare'))
     emissions = case['emissions']
+    late_items = {}
+    in_step = list(emissions)
+    for hook in ('on_finish', 'on_exit_running'):  # order of execution: on_exit_running first, then on_finish
+        n = (case.get('late') or {}).get(hook, 0)
+        if n:
+            late_items[hook] = in_step[len(in_step) - n :]
+            in_step = in_step[: len(in_step) - n]
     program = {
-        'steps': [{'async': False, 'body': [['out', p, val] for p, val in emissions], 'ret': ['value', case.get('ret', 0)]}],
+        'steps': [{'async': False, 'body': [['out', p, val] for p, val in in_step], 'ret': ['value', case.get('ret', 0)]}],
         'spec': {'outputs': declared_tree, 'redeclare': case.get('redeclare') or []},
         'snapshot_outputs': True,
     }
+    if late_items:
+        # part of the class identity: emissions create namespaces in the (class-level) spec, which must not be shared
+        # with a case that emits something else from its hooks
+        program['late_emissions'] = late_items
     sep = case.get('sep')
     if sep:
         program['spec']['sep'] = sep
@@ -212,7 +231,20 @@ def execute(case):
     except pm.Reject:
         model_ok = False
 
+    late = case.get('late') or {}  # {'on_exit_running' | 'on_finish': n}: the last n emissions are made from that hook
+
     with Exec(run_case) as ex:
+        if late:
+            pending = {hook: list(items) for hook, items in late_items.items()}
+
+            def from_hook(proc, hook, pos):
+                # an application that emits (part of) its outputs from a lifecycle hook between the return of the last
+                # step and the entry of FINISHED (on_exit_running, or on_finish before calling super())
+                if pos == 'pre' and hook in pending and proc.pid == 1:
+                    for path, val in pending.pop(hook):
+                        proc._item(0, ['out', path.replace('.', sep) if False else path, val])
+
+            ex.world.extra['hook_listener'] = from_hook
         ex.start()
         ex.settle(play=True, resumes=None, open_gates=True)
         trace = [e for e in ex.world.trace.get(1, []) if e['k'] == 'out']
@@ -262,6 +294,8 @@ def execute(case):
         classes.append('custom-separator')
     if case.get('redeclare'):
         classes.append('namespace-redeclared')
+    if case.get('late'):
+        classes.append('emitted-from-hooks')
     if any((p, 'ns') in set(_paths(tree)) for p, _ in emissions):
         classes.append('mapping-onto-declared-namespace')
     return {
